@@ -162,6 +162,9 @@ enum Kind {
     /// the poll is entered from another module: the per-poll record is assembled through its published layout with
     /// that module's own clone / wake functions (see foreign.rs); the local waker only lends its bits as a decoy
     ForeignFuture,
+    /// every poll comes back Ready(Some(item)) / Ready(Ok(())): wakes requested during such a poll count like any other
+    StreamReady,
+    SinkFlushReady,
 }
 
 #[derive(Default)]
@@ -172,6 +175,8 @@ struct World {
     pending: Vec<Act>,
     wake_ops: u64,
     caller_dropped: bool,
+    /// polls come back Ready (an item / Ok) instead of Pending
+    ready: bool,
 }
 
 impl World {
@@ -214,12 +219,14 @@ impl World {
 struct Scripted(Arc<Mutex<World>>);
 
 impl Scripted {
-    fn run(&mut self, cx: &mut Context<'_>) {
+    /// -> whether this poll is to come back Ready (streams and sinks only: for them Ready is not the end)
+    fn run(&mut self, cx: &mut Context<'_>) -> bool {
         let mut w = self.0.lock().unwrap();
         let acts = std::mem::take(&mut w.pending);
         for a in acts {
             w.apply(a, Some(cx.waker()));
         }
+        w.ready
     }
 }
 
@@ -234,8 +241,11 @@ impl Future for Scripted {
 impl futures::Stream for Scripted {
     type Item = u32;
     fn poll_next(mut self: Pin<&mut Self>, cx: &mut Context<'_>) -> Poll<Option<u32>> {
-        self.run(cx);
-        Poll::Pending
+        if self.run(cx) {
+            Poll::Ready(Some(7))
+        } else {
+            Poll::Pending
+        }
     }
 }
 
@@ -249,8 +259,11 @@ impl futures::Sink<u32> for Scripted {
         Ok(())
     }
     fn poll_flush(mut self: Pin<&mut Self>, cx: &mut Context<'_>) -> Poll<Result<(), u32>> {
-        self.run(cx);
-        Poll::Pending
+        if self.run(cx) {
+            Poll::Ready(Ok(()))
+        } else {
+            Poll::Pending
+        }
     }
     fn poll_close(mut self: Pin<&mut Self>, cx: &mut Context<'_>) -> Poll<Result<(), u32>> {
         self.run(cx);
@@ -373,7 +386,7 @@ impl Sut {
         let foreign = self.kind == Kind::ForeignFuture;
         // registered under the decoy's data word (the slot address); stays registered: wakers leaked on a violation may still call in
         let fstats: Option<&'static foreign::Stats> = if foreign { Some(foreign::register(slot as *const Slot as usize)) } else { None };
-        let world = Arc::new(Mutex::new(World::default()));
+        let world = Arc::new(Mutex::new(World { ready: matches!(self.kind, Kind::StreamReady | Kind::SinkFlushReady), ..World::default() }));
         // group the history into polls / outside actions
         enum Grp {
             Poll(Vec<Act>),
@@ -404,7 +417,7 @@ impl Sut {
                             let pinned = Pin::new(&mut obj);
                             let pending = $poll(pinned, &mut cx);
                             if !pending {
-                                return Err(("waker:poll_result".into(), at("the scripted Pending did not come back as Pending")));
+                                return Err(("waker:poll_result".into(), at("the scripted poll result (Pending, or Ready with its value) did not come back unchanged")));
                             }
                         }
                         Grp::Out(Act::DropCaller) => {
@@ -457,6 +470,8 @@ impl Sut {
             Kind::Stream => drive!(trait_obj!(Scripted(world.clone()) as Stream), |p: Pin<&mut _>, cx: &mut Context| futures::Stream::poll_next(p, cx).is_pending()),
             Kind::SinkReady => drive!(trait_obj!(Scripted(world.clone()) as Sink), |p: Pin<&mut _>, cx: &mut Context| futures::Sink::<u32>::poll_ready(p, cx).is_pending()),
             Kind::SinkFlush => drive!(trait_obj!(Scripted(world.clone()) as Sink), |p: Pin<&mut _>, cx: &mut Context| futures::Sink::<u32>::poll_flush(p, cx).is_pending()),
+            Kind::StreamReady => drive!(trait_obj!(Scripted(world.clone()) as Stream), |p: Pin<&mut _>, cx: &mut Context| futures::Stream::poll_next(p, cx) == Poll::Ready(Some(7))),
+            Kind::SinkFlushReady => drive!(trait_obj!(Scripted(world.clone()) as Sink), |p: Pin<&mut _>, cx: &mut Context| futures::Sink::<u32>::poll_flush(p, cx) == Poll::Ready(Ok(()))),
             Kind::SinkClose => drive!(trait_obj!(Scripted(world.clone()) as Sink), |p: Pin<&mut _>, cx: &mut Context| futures::Sink::<u32>::poll_close(p, cx).is_pending()),
         }
         // canonical key: family sizes (sorted), caller refcount, whether an InCont may follow
@@ -523,6 +538,8 @@ fn kind_of(name: &str) -> Kind {
         "sink_flush" => Kind::SinkFlush,
         "nested_future" => Kind::NestedFuture,
         "foreign_future" => Kind::ForeignFuture,
+        "stream_ready" => Kind::StreamReady,
+        "sink_flush_ready" => Kind::SinkFlushReady,
         _ => Kind::SinkClose,
     }
 }
@@ -530,7 +547,7 @@ fn kind_of(name: &str) -> Kind {
 fn main() {
     std::panic::set_hook(Box::new(|_| {}));
     let mut sections = Vec::new();
-    for name in ["future", "stream", "sink_ready", "sink_flush", "sink_close", "future_nulldata", "sink_flush_nulldata", "nested_future", "foreign_future"] {
+    for name in ["future", "stream", "sink_ready", "sink_flush", "sink_close", "future_nulldata", "sink_flush_nulldata", "nested_future", "foreign_future", "stream_ready", "sink_flush_ready"] {
         let kind = kind_of(name);
         let null_data = name.ends_with("_nulldata");
         sections.push(Section {
